@@ -5,6 +5,7 @@ import (
 	"encoding/json"
 	"fmt"
 	"net/http"
+	"net/url"
 	"os"
 	"sort"
 	"strings"
@@ -154,6 +155,12 @@ func mkReq(id, method, path string, creds []pCred, a *aspec.ASpec) driver.ReqCas
 				continue
 			}
 			tok := cr.C + "-" + s.Key
+			if cr.C == "valid" && credForm(id) {
+				// the credential's form is the user's business: a key that itself looks like an Authorization value
+				// (the authenticator stub of this case accepts exactly this spelling)
+				tok = "Bearer " + tok
+				rc.CredPrefix = "Bearer "
+			}
 			switch s.Kind {
 			case "bearer":
 				rc.Headers["Authorization"] = append(rc.Headers["Authorization"], "Bearer "+tok)
@@ -162,7 +169,7 @@ func mkReq(id, method, path string, creds []pCred, a *aspec.ASpec) driver.ReqCas
 			case "apiKeyHeader":
 				rc.Headers[s.Name] = append(rc.Headers[s.Name], tok)
 			case "apiKeyQuery":
-				q = append(q, s.Name+"="+tok)
+				q = append(q, s.Name+"="+url.QueryEscape(tok))
 			case "apiKeyCookie":
 				rc.Headers["Cookie"] = append(rc.Headers["Cookie"], s.Name+"="+tok)
 			case "oauth2", "openIdConnect":
@@ -173,6 +180,18 @@ func mkReq(id, method, path string, creds []pCred, a *aspec.ASpec) driver.ReqCas
 	rc.RawQuery = strings.Join(q, "&")
 	rc.Abs = map[string]any{"method": method, "kind": kind, "segs": segs, "cred": creds}
 	return rc
+}
+
+// credForm: every third case presents its valid credentials as "Bearer valid-<scheme>" (the authenticator stubs of
+// the driver accept, per case, exactly the spelling presented).
+func credForm(id string) bool {
+	n := 0
+	for _, ch := range id {
+		if ch >= '0' && ch <= '9' {
+			n = n*10 + int(ch-'0')
+		}
+	}
+	return n%3 == 0
 }
 
 // ---- running and abstracting -------------------------------------------------------
